@@ -84,9 +84,16 @@ def _configs():
         "1+(2+x)", "sin(1+)", "1+sin((2)", "pow(1,x)",
         # final 'unprocessed tokens' check
         "(1)(2)", "1 2",
+        # functions whose evaluation raises warnings / produces nan or inf (numpy error state must not leak)
+        "log(0)", "log10(0)", "sqrt(0-1)", "log(0-1)+1",
     ]
+    # very deep nesting (a depth guard or the recursion limit must not leave anything behind): own small alphabet,
+    # because one 300-deep solve costs as much as a hundred ordinary ones
+    deep_calls = ["1+2", "(" * 40 + "1" + ")" * 40, "(" * 300 + "1" + ")" * 300, "(" * 301 + "1" + ")" * 300,
+                  "(1", "2*(3+4)"]
     cfg = {}
     cfg["default"] = (lambda: ExpressionSolver(AtomBase), default_calls)
+    cfg["default_deep"] = (lambda: ExpressionSolver(AtomBase), deep_calls)
     cfg["custom_atom"] = (lambda: ExpressionSolver(AtomBad), [
         "foo*2", "1+2", "(foo+1)*2", "foo<4",
         "BAD", "BAD+1", "1+BAD", "1+2*BAD", "foo*(BAD)", "pow(foo,BAD)", "1+(BAD+2)*3",
@@ -156,8 +163,25 @@ _FRESH = {}
 
 
 def init_worker():
-    global _CFG
+    global _CFG, _PRISTINE, _PRISTINE_RAW
+    import numpy as np
+    import warnings
+    warnings.simplefilter("ignore")
     _CFG = _configs()
+    if _PRISTINE is None:
+        from scinumtools.solver import solver as _s, tokens as _t, expression as _e, operators as _o, atom as _a
+        classes = [_s.ExpressionSolver, _t.Tokens, _e.Expression, _a.AtomBase]
+        classes += [c for c in vars(_o).values() if isinstance(c, type) and issubclass(c, _o.OperatorBase)]
+        _PRISTINE_RAW = dict(np=tuple(np.geterr().items()),
+                             cls={(c, k): v for c in classes for k, v in vars(c).items()
+                                  if not k.startswith("__") and not callable(v)
+                                  and not isinstance(v, (staticmethod, classmethod, property))})
+        _PRISTINE = _global_state()
+        # reference outcomes of every call on a fresh instance, computed before any history has run
+        for cname, (_, calls) in _CFG.items():
+            for c in calls:
+                _fresh(cname, c)
+                _restore_global_state()
 
 
 def _val(o):
@@ -187,8 +211,52 @@ def _guard(es, ref):
     return (list(es.operators.items()) == ref[0] and repr(es.steps) == ref[1] and es.tokens.atom is ref[2])
 
 
+def _global_state():
+    """process-wide state a solve() could leave behind: numpy's error handling and class-level attributes of the
+    solver classes (an instance's later answers must not depend on them having been changed by an earlier call)"""
+    import numpy as np
+    from scinumtools.solver import solver as _s, tokens as _t, expression as _e, operators as _o, atom as _a
+    out = [("np.geterr", tuple(sorted(np.geterr().items())))]
+    classes = [_s.ExpressionSolver, _t.Tokens, _e.Expression, _a.AtomBase]
+    classes += [c for c in vars(_o).values() if isinstance(c, type) and issubclass(c, _o.OperatorBase)]
+    for c in classes:
+        for k, v in sorted(vars(c).items()):
+            if k.startswith("__") or callable(v) or isinstance(v, (staticmethod, classmethod, property)):
+                continue
+            out.append((c.__name__ + "." + k, repr(v)))
+    return tuple(out)
+
+
+_PRISTINE = None
+_PRISTINE_RAW = None
+
+
+def _restore_global_state():
+    import numpy as np
+    np.seterr(**dict(_PRISTINE_RAW["np"]))
+    for (c, k), v in _PRISTINE_RAW["cls"].items():
+        if getattr(c, k, None) is not v:
+            try:
+                setattr(c, k, v)
+            except Exception:
+                pass
+
+
 def _run_history(cname, hist, sh, check_from=0):
     """Execute a history on one shared instance; check every transition >= check_from."""
+    make, _ = _CFG[cname]
+    _restore_global_state()
+    es, bad = _run_history_inner(cname, hist, sh, check_from)
+    now = _global_state()
+    if now != _PRISTINE and bad is None:
+        diff = [b for a, b in zip(_PRISTINE, now) if a != b] if len(now) == len(_PRISTINE) else ["attributes added/removed"]
+        bad = failure("global-state", dict(config=cname, history=list(hist)), "process-wide solver state unchanged",
+                      repr(diff)[:300], tags=["process-wide-state"], behaviour="global-state-changed")
+    _restore_global_state()
+    return es, bad
+
+
+def _run_history_inner(cname, hist, sh, check_from=0):
     make, _ = _CFG[cname]
     es = make()
     ref = (list(es.operators.items()), repr(es.steps), es.tokens.atom)
